@@ -1,5 +1,6 @@
 import BobModel.Proofs.C18Result
 import BobModel.Proofs.C18Norm
+import BobModel.Generated.ConstsC18
 /-
 C18 — property theorems about the model of pym/bob/pathspec.py (Model/PathSpec.lean) against the
 declarative meaning of path queries (Spec/PathSem.lean).  Only statements that mention the
@@ -35,6 +36,27 @@ theorem exGraph_wf : exGraph.WF := by
     | 1 => decide
     | 2 => decide
     | n + 3 => simp [exGraph, exChildren]
+
+/-! ### 0. the constants of the current source -/
+
+/-- every axis keyword of the grammar (which are also exactly the axis names dispatched in
+`LocationStep.evalForward` and `evalBackward`, checked by the extractor) is modelled, by a distinct axis -/
+theorem axis_names_cover :
+    Consts.C18.axes.map Axis.ofName =
+      [some .child, some .descendant, some .descendantOrSelf, some .directChild, some .directDescendant,
+       some .directDescendantOrSelf, some .self] := by
+  decide
+
+/-- a name test cannot contain any `fnmatch` special character but `*`, so `globMatch` is all of
+`fnmatchcase` that can be reached -/
+theorem nameTest_wildcard_only :
+    ∀ c ∈ Consts.C18.nodeTestChars, c ≠ '?' ∧ c ≠ '[' ∧ c ≠ ']' ∧ c ≠ '!' := by
+  decide
+
+/-- the two mode names `LocationPath.evalForward` compares with are modelled; every other value
+behaves like `nullglob` -/
+theorem compared_modes : Consts.C18.comparedModes.map Mode.ofName = [some .nullfail, some .nullset] := by
+  decide
 
 /-! ### 1. the worklist loops -/
 
